@@ -67,11 +67,14 @@ PROPS["C18"] = dict(
         R("sv", "plain", 16, 3906, ["mode=exh"], partition=True),
         R("sv", "asan", 16, 977, ["mode=exh", "stride=4"], partition=True),
         R("sv", "asan", 4, 40, ["mode=rand"]),
+        R("sv", "plain", 1, 1, ["mode=huge"]),
     ],
     thorough=[
         R("sv", "plain", 16, 3906, ["mode=exh", "full=1"], partition=True, timeout=7200),
         R("sv", "asan", 16, 3906, ["mode=exh"], partition=True, timeout=7200),
         R("sv", "asan", 16, 3000, ["mode=rand"], timeout=7200),
+        R("sv", "plain", 2, 2, ["mode=huge"]),
+        R("sv", "asan17", 1, 1, ["mode=huge"], timeout=3600),
     ],
     rule="exhaustive mode: one case per haystack out of all 3906 byte strings of length 0..5 over "
          "{00,'a','b',80,FF}; each is combined with all 156 needles of length 0..3 (plus itself and "
@@ -155,6 +158,7 @@ PROPS["C14"] = dict(
         R("digest", "asan", 4, 2, ["mode=long", "maxlen=1500000"]),
         R("digest", "asan", 8, 6, ["mode=sip"]),
         R("digest", "plain", 1, 1, ["mode=huge"], partition=True),
+        R("digest", "plain", 1, 1, ["mode=hugesip"], partition=True),
     ],
     thorough=[
         R("digest", "asan", 16, 1101, ["mode=len", "splits_upto=1100"], partition=True, timeout=7200),
@@ -162,6 +166,7 @@ PROPS["C14"] = dict(
         R("digest", "asan", 16, 12, ["mode=long", "maxlen=12000000"], timeout=7200),
         R("digest", "asan", 16, 300, ["mode=sip"], timeout=7200),
         R("digest", "plain", 6, 6, ["mode=huge"], partition=True, timeout=7200),
+        R("digest", "plain", 2, 2, ["mode=hugesip"], partition=True, timeout=7200),
     ],
     post=[_c14_post],
     rule="len: one case per message length 0..1100 (random, all-00 and all-ff content) through all four "
